@@ -1423,4 +1423,16 @@ theorem c02_rtscts_end_to_end (cfgO cfgR : Cfg) (accO accR : Nat → Bool) (sO s
   · rw [deliveries_append, i3, ha2]; simp [deliveries]
 
 
+/-- the hypotheses of `c02_rtscts_end_to_end` / `c02_bam_end_to_end` are satisfiable: a 130-byte message 0x80 → 0x90 (and a
+    130-byte PDU2 broadcast) on empty stacks, four rounds / passes 10 ms apart -/
+example : (sendPgn {} {} 1000 0 208 0x90 6 0x80 (List.replicate 130 7) 0 3).2 = true ∧
+    (0x90 == Const.Addr.GLOBAL || PGN.is_pdu2_format (PGN.ofFields 0 208 0x90)) = false ∧
+    Sched 3000 [(10000, 10001, 10002), (20000, 20001, 20002), (30000, 30001, 30002), (40000, 40001, 40002)] ∧
+    Tp22.num_segments (List.replicate 130 7).length + 1 ≤ 4 ∧
+    (sendPgn {} {} 1000 0 254 202 6 0x80 (List.replicate 130 7) 0 3).2 = true ∧
+    Due {} (1000 + ({} : Cfg).bamInterval) [11000, 21000, 31000, 41000] := by
+  refine ⟨by decide +kernel, by decide, ?_, by decide +kernel, by decide +kernel, ?_⟩
+  · simp [Sched]
+  · simp [Due, Const.Default.bam_interval_22]
+
 end J1939.Props.C02
